@@ -291,3 +291,29 @@ Theorem c01_src_fields_v2 : forall h, wf_bytes h -> hs2 <= lenN h ->
   /\ go_V2Header_Checksum (zbytes h) = GoSem.Ok (Z.of_N (get32 (skipn 16 h))).
 Proof. exact src_fields_v2. Qed.
 Print Assumptions c01_src_fields_v2.
+
+(* ... and applied to the header the MODEL's encoder writes (C01/SourceW.v) the regenerated
+   accessors return the frame length, the caller's sequence number, node and command and the
+   CRC-32 of the covered bytes: the source's decoder-side accessors read back what the model
+   says the encoder wrote *)
+From FV Require Import C01.SourceW.
+
+Theorem c01_src_written_fields_v1 : forall enc zip thr has_c p n h b p',
+  wf_packet p -> clean_flags p ->
+  write_v1 enc zip thr has_c p = mkWres (Some n) [h; b] p' ->
+  go_V1Header_Len (zbytes h) = GoSem.Ok (Z.of_N n)
+  /\ go_V1Header_Seq (zbytes h) = GoSem.Ok (Z.of_N (p_seq p))
+  /\ go_V1Header_Command (zbytes h) = GoSem.Ok (p_cmd p)
+  /\ go_V1Header_Checksum (zbytes h) = GoSem.Ok (Z.of_N (crc32 (firstn 10 h ++ b))).
+Proof. exact src_written_fields_v1. Qed.
+Print Assumptions c01_src_written_fields_v1.
+
+Theorem c01_src_written_fields_v2 : forall enc zip thr has_c p n h b p',
+  wf_packet p -> clean_flags p ->
+  write_v2 enc zip thr has_c p = mkWres (Some n) [h; b] p' ->
+  go_V2Header_Seq (zbytes h) = GoSem.Ok (Z.of_N (p_seq p))
+  /\ go_V2Header_Node (zbytes h) = GoSem.Ok (Z.of_N (p_node p))
+  /\ go_V2Header_Command (zbytes h) = GoSem.Ok (p_cmd p)
+  /\ go_V2Header_Checksum (zbytes h) = GoSem.Ok (Z.of_N (crc32 (firstn 16 h ++ skipn 20 h ++ b))).
+Proof. exact src_written_fields_v2. Qed.
+Print Assumptions c01_src_written_fields_v2.
